@@ -247,6 +247,11 @@ def expressions(tier: str) -> List[tuple]:
             if a == b:
                 continue
             out += [And(And(a, b), c), Or(And(a, b), c), And(Or(a, b), c), Or(Or(a, b), c)]
+    # precedence / parenthesisation probes over three USER-SETTABLE operands (right- and left-nested, mixed operators)
+    rel = KEY_RELS[0]
+    for a, b, c in list(itertools.permutations((S("U1"), S("U2"), S("UG")), 3)) + [(S("U1"), S("U2"), rel), (rel, S("U1"), S("U2")), (S("U1"), rel, S("U2"))]:
+        out += [And(a, Or(b, c)), Or(a, And(b, c)), And(Or(a, b), c), Or(And(a, b), c), Not(And(a, Or(b, c))), And(Not(a), Or(b, c)),
+                And(a, Or(b, Not(c))), Or(Not(a), And(b, c)), And(a, Not(Or(b, c)))]
     res, seen = [], set()
     for e in out:
         if e not in seen:
@@ -370,6 +375,14 @@ def fixed_programs() -> List[Tuple[str, Program, List[str], List[str]]]:
         )
     ]
     out.append(("nested_menus", Program(title="Main menu", children=base + kids), ["U1", "FORCED"], ["CONFIG_OLD_F_HID CONFIG_F_HID", "CONFIG_OLD_F_A CONFIG_F_A"]))
+    # one option defined at two places, one of which is dead for a target (in both orders, and under menu / if / choice-less containers)
+    for order in ("dead_first", "live_first"):
+        for dead_target in ("IDF_TARGET_CHIPA", "IDF_TARGET_CHIPB"):
+            dead = Menu(title=f"Only {dead_target}", depends=[S(dead_target)], children=[Cfg("F_SH", "int", prompt="shared (target part)", defaults=[(L("1"), None)]), Cfg("F_T", "bool", prompt="target only")])
+            live = Menu(title="Common services", children=[Cfg("F_SH", "int", prompt="shared (common part)", defaults=[(L("2"), None)]), Cfg("F_SH2", "bool", prompt="uses shared", depends=[Rel(">", S("F_SH"), L("0"))])])
+            also = kgen.If(cond=S("U1"), children=[Cfg("F_SH", "int", prompt="shared (if part)")])
+            kids = [dead, live, also] if order == "dead_first" else [live, also, dead]
+            out.append((f"twice_defined:{order}:{dead_target[-5:].lower()}", Program(title="Main menu", children=base + kids), ["U1"], []))
     return out
 
 
@@ -670,6 +683,8 @@ def check_target(item: dict, target: str, r: common.Result) -> None:
     changed = any((shown is not cond) for cond, _d, shown, _w in gen.records)
     witness: Dict[str, dict] = {}
     mism: Dict[int, Tuple[dict, int, int, int]] = {}
+    text_mism: Dict[int, tuple] = {}
+    rendered: Dict[int, str] = {}
     worlds = []
     for a in assigns:
         r.evals += 1
@@ -689,6 +704,24 @@ def check_target(item: dict, target: str, r: common.Result) -> None:
             s = 0 if shown is None else kl.expr_value(transplant(shown, k2))
             if min(o, d) != min(s, d):
                 mism[i] = (dict(a), o, d, s)
+            # (b2) the TEXT the reader sees: render the shown condition with the generator's own _cond_to_doc_str, read it
+            # back with the Kconfig expression grammar (Kconfig.eval_string) and compare with the condition it renders
+            if shown is not None and i not in text_mism:
+                txt = rendered.get(i)
+                if txt is None:
+                    try:
+                        txt = gd._cond_to_doc_str(shown, kl.standard_sc_expr_str)
+                    except Exception as e:  # noqa: BLE001
+                        txt = f"<raised {type(e).__name__}>"
+                    rendered[i] = txt
+                if not txt.startswith("<raised"):
+                    back = re.sub(r"([A-Za-z0-9_]+) is disabled", r"!\1", re.sub(r"([A-Za-z0-9_]+) is enabled", r"\1", txt))
+                    try:
+                        tv = k2.eval_string(back)
+                    except Exception as e:  # noqa: BLE001
+                        tv = f"<{type(e).__name__}>"
+                    if tv != s:
+                        text_mism[i] = (dict(a), txt, s, tv)
 
     # (a)
     for n, kind in undocumented:
@@ -740,6 +773,17 @@ def check_target(item: dict, target: str, r: common.Result) -> None:
             sig,
             f"[{group}, {target}] E = `{estr}`: {where}: Kconfig condition `{describe(cond)}` is {'y' if o else 'n'} with {a} "
             f"(stripped deps {'-' if deps is None else describe(deps)} = {'y' if d else 'n'}) but the documentation shows {shown_s}{why}",
+            dict(case, assign=a, where=where),
+        )
+
+    # (b2)
+    for i, (a, txt, sv, tv) in sorted(text_mism.items()):
+        cond, deps, shown, where = gen.records[i]
+        shape = re.sub(r"[A-Za-z_][A-Za-z0-9_]*|\"[^\"]*\"|0x[0-9a-fA-F]+|[0-9.]+", "x", describe(shown))
+        r.violation(
+            {"kind": "rendered_text_differs", "site": "gen_kconfig_doc.py:_cond_to_doc_str", "shape": shape[:60]},
+            f"[{group}, {target}] E = `{estr}`: {where}: the shown condition `{describe(shown)}` is rendered as `{txt}`, which reads as "
+            f"{'y' if tv == 2 else 'n' if tv == 0 else tv} with {a} while the condition is {'y' if sv else 'n'}",
             dict(case, assign=a, where=where),
         )
 
